@@ -195,7 +195,7 @@ func (e *linEnv) varName(v ssa.Value) string {
 	if u, ok := v.(*ssa.UnOp); ok && u.Op == token.MUL {
 		if fa, ok := u.X.(*ssa.FieldAddr); ok {
 			if fv := fieldVar(fa.X.Type(), fa.Field); fv != nil {
-				base := "." + fv.Name() + "@" + e.varName(fa.X)
+				base := "." + refName(fv) + "@" + e.varName(fa.X)
 				name = base
 				for k := 0; ; k++ {
 					cand := base
@@ -222,7 +222,7 @@ func (e *linEnv) varName(v ssa.Value) string {
 	// the address of a field: named structurally, so that two evaluations of &x.f agree
 	if fa, ok := v.(*ssa.FieldAddr); ok {
 		if fv := fieldVar(fa.X.Type(), fa.Field); fv != nil {
-			name = "&" + fv.Name() + "@" + e.varName(fa.X)
+			name = "&" + refName(fv) + "@" + e.varName(fa.X)
 		}
 	}
 	if x, isLen := isLenOf(v); isLen {
@@ -289,6 +289,15 @@ func (e *linEnv) toLin(v ssa.Value, depth int) *linForm {
 	}
 	if ph, ok := unwrap(v0).(*ssa.Phi); ok && depth < 12 {
 		e.inductionFacts(ph, depth)
+	}
+	// library contract: 0 <= sort.Search(n, f) <= n
+	if c, ok := unwrap(v0).(*ssa.Call); ok && depth < 12 && !e.phis[c] {
+		if f := calleeFunc(c.Common()); f != nil && f.Pkg() != nil && f.Pkg().Path() == "sort" && f.Name() == "Search" && len(c.Call.Args) == 2 {
+			e.phis[c] = true
+			me := linVar(e.varName(c))
+			n := e.toLin(c.Call.Args[0], depth+1)
+			e.side = append(e.side, [][]*linForm{{me.clone(), n.sub(me)}})
+		}
 	}
 	r := newLin()
 	r.c[e.varName(v0)] = big.NewRat(1, 1)
